@@ -148,11 +148,13 @@ pub struct RunOpts {
     pub repeat_last: bool,
     /// call the read-only methods of the iterator (size_hint, vars) before every next()
     pub poke: bool,
+    /// > 0: the caller advances with `nth(stride)` instead of `next()` (as `skip`/`step_by` do)
+    pub stride: usize,
 }
 
 impl RunOpts {
     pub fn new(max_next: usize) -> Self {
-        RunOpts { max_next, after_end: 0, continue_after_error: false, seed: 1, budget: DEFAULT_BUDGET, collect_vars: false, collect_key: false, extra_known: vec![], repeat_last: false, poke: false }
+        RunOpts { max_next, after_end: 0, continue_after_error: false, seed: 1, budget: DEFAULT_BUDGET, collect_vars: false, collect_key: false, extra_known: vec![], repeat_last: false, poke: false, stride: 0 }
     }
 }
 
@@ -319,7 +321,8 @@ where
                         let _ = it.vars();
                     });
                 }
-                let item = match guard(opts.budget, || item_of(it.next())) {
+                let stride = opts.stride;
+                let item = match guard(opts.budget, || item_of(if stride > 0 { it.nth(stride) } else { it.next() })) {
                     Ok(i) => i,
                     Err(Caught::Panic(s)) => ObsItem::Panic(s),
                     Err(Caught::Watchdog) => ObsItem::Watchdog,
